@@ -24,3 +24,50 @@ for name, (curve, n) in CURVES.items():
     out[name] = {k: v for k, v in want.items() if v is not None}
     print(name, out[name], file=sys.stderr)
 Path(__file__).resolve().parent.parent.joinpath("corpus", "special_ec.json").write_text(json.dumps(out, indent=1) + "\n")
+
+# RSA keys whose modulus length is not a multiple of 8 (and just below / above 2048): they only ever arrive by import.
+# OpenSSL returns a 2048-bit modulus when asked for 2049 bits, so such moduli are assembled from primes of two generated keys.
+import base64  # noqa: E402
+import math  # noqa: E402
+from cryptography.hazmat.primitives.asymmetric import rsa  # noqa: E402
+
+
+def _b64(n):
+    return base64.urlsafe_b64encode(n.to_bytes((n.bit_length() + 7) // 8, "big")).rstrip(b"=").decode()
+def primes_of(bits):
+    k = rsa.generate_private_key(65537, bits).private_numbers()
+    return k.p, k.q
+def make(bits):
+    """an RSA key with a modulus of exactly `bits` bits, from primes of two OpenSSL-generated keys"""
+    for _ in range(400):
+        hi = (bits + 1) // 2
+        lo = bits - hi
+        p = primes_of(2 * hi)[0]
+        q = primes_of(2 * max(lo, 512))[1]
+        # trim: OpenSSL primes have their two top bits set, so p*q has 2*size bits; take q from a smaller key when needed
+        n = p * q
+        if n.bit_length() != bits or p == q:
+            continue
+        e = 65537
+        lam = math.lcm(p - 1, q - 1)
+        if math.gcd(e, lam) != 1:
+            continue
+        d = pow(e, -1, lam)
+        if p < q:
+            p, q = q, p
+        nums = rsa.RSAPrivateNumbers(p, q, d, d % (p - 1), d % (q - 1), pow(q, -1, p), rsa.RSAPublicNumbers(e, n))
+        nums.private_key()
+        return {"kty": "RSA", "n": _b64(n), "e": _b64(e), "d": _b64(d), "p": _b64(p), "q": _b64(q), "dp": _b64(d % (p - 1)),
+                "dq": _b64(d % (q - 1)), "qi": _b64(pow(q, -1, p))}
+    raise SystemExit(f"no modulus of {bits} bits found")
+out = {}
+for bits in (1031, 2040, 2041, 2047, 2049, 3071):
+    k = rsa.generate_private_key(65537, bits)
+    pn = k.private_numbers()
+    if pn.public_numbers.n.bit_length() == bits:
+        out[str(bits)] = {"kty": "RSA", "n": _b64(pn.public_numbers.n), "e": _b64(pn.public_numbers.e), "d": _b64(pn.d), "p": _b64(pn.p),
+                          "q": _b64(pn.q), "dp": _b64(pn.dmp1), "dq": _b64(pn.dmq1), "qi": _b64(pn.iqmp)}
+    else:
+        out[str(bits)] = make(bits)
+    print("rsa", bits, file=sys.stderr)
+Path(__file__).resolve().parent.parent.joinpath("corpus", "special_rsa.json").write_text(json.dumps(out, indent=1) + "\n")
